@@ -125,7 +125,8 @@ def schemaOf : Plan → Schema
 
 /-- The schema of the batches the node's physical operator emits (src/physical/planner.rs): a scan emits its
     projected columns, a hash join the concatenation of its inputs' batches (semi/anti: the left input; mark:
-    left plus the stored mark column), every other operator is built with the node's stored schema. -/
+    left plus the stored mark column), a SubqueryAlias is lowered to its input, every other operator is built with the
+    node's stored schema. -/
 def outSchema : Plan → Schema
   | .scan _ s proj _ => match proj with | some idx => projectSchema s idx | none => s
   | .filter _ i => outSchema i
@@ -141,7 +142,7 @@ def outSchema : Plan → Schema
   | .limit _ _ i => outSchema i
   | .distinct i => outSchema i
   | .union _ s _ => s
-  | .alias _ _ s _ => s
+  | .alias _ _ _ i => outSchema i        -- SubqueryAlias is not an operator: the planner lowers its input (the fields are already qualified by the binder)
   | .empty _ s => s
   | .values _ _ s => s
   | .delimJoin _ _ _ _ s _ _ => s
@@ -185,7 +186,7 @@ def wfP (outer : List Schema) : Plan → Bool
   | .limit _ _ i => wfP outer i
   | .distinct i => wfP outer i
   | .union _ s inputs => wfPs outer s.length inputs
-  | .alias _ _ s i => wfP outer i && (outSchema i).length == s.length
+  | .alias _ _ _ i => wfP outer i
   | .empty _ _ => true
   | .values rows width s => wfEs outer rows && (width == s.length && (decide (0 < width) && rows.length % width == 0 || rows.isEmpty))
   | .delimJoin jt delim onL onR s l r =>
